@@ -110,7 +110,11 @@ def seed_url(s: int, r: int, gen: int = 0) -> str:
 
 
 class Universe:
-    """2 sessions x 2 regions; ``regions[i]`` with i = 2*s + r, in SessionManager / Session iteration order."""
+    """2 sessions x 2 regions; ``regions[i]`` with i = 2*s + r, in SessionManager / Session iteration order.
+
+    Both agents stand in the SAME two simulators: region r of either session has circuit address 127.0.0.1:1300r (and
+    the same handle), but its own per-agent Seed URL.  Anything keyed on the simulator instead of the agent's region
+    collides on purpose."""
 
     def __init__(self):
         install_stubs()
@@ -124,12 +128,12 @@ class Universe:
             sess = self.sm.create_session({
                 "session_id": str(UUID(int=0x100 + s)), "secure_session_id": str(UUID(int=0x200 + s)),
                 "agent_id": str(UUID(int=0x300 + s)), "circuit_code": 1000 + s,
-                "sim_ip": "127.0.0.1", "sim_port": 13000 + 10 * s, "region_x": 256 * s, "region_y": 256,
+                "sim_ip": "127.0.0.1", "sim_port": 13000, "region_x": 256, "region_y": 256,
                 "seed_capability": seed_url(s, 0),
             })
             sess.pending = False
             for r in range(1, N_REGIONS):
-                sess.register_region(("127.0.0.1", 13000 + 10 * s + r), seed_url=seed_url(s, r), handle=(s << 32) | (r + 1))
+                sess.register_region(("127.0.0.1", 13000 + r), seed_url=seed_url(s, r), handle=(256 << 32) | (256 * (r + 1)))
             if len(sess.regions) != N_REGIONS:
                 raise HarnessError(f"universe construction produced {len(sess.regions)} regions")
             sess.main_region = sess.regions[0]
@@ -137,6 +141,7 @@ class Universe:
             self.regions.extend(sess.regions)
         self.em = MITMProxyEventManager(self.sm, self.sm.flow_context)
         self.flow_counter = 0
+        self.pump_errors: List[str] = []
 
     def _uuid4(self):
         self.uuid_counter += 1
@@ -165,6 +170,12 @@ class Universe:
         try:
             coro.send(None)
         except StopIteration:
+            return
+        except HarnessError:
+            raise
+        except Exception as e:
+            # the production loop (run()) logs and carries on; the flow was handed back by the finally clause
+            self.pump_errors.append(repr(e))
             return
         coro.close()
         raise HarnessError("pump_proxy_event suspended: nothing was queued")
